@@ -146,7 +146,7 @@ def build_config(root, name):
     flags, prof = CONFIGS[name]
     tgt = os.path.join(root, '.cache', 'harness-target-' + name)
     rc, out = lsv.sh(['cargo', 'build', '--offline', '--target-dir', tgt, '--bin', 'runner'] + flags, 1500,
-                     cwd=os.path.join(root, 'harness'), env={'RUSTFLAGS': '--cfg lean_string_verif'})
+                     cwd=lsv.harness_dir(root), env={'RUSTFLAGS': '--cfg lean_string_verif'})
     return rc == 0, os.path.join(tgt, prof, 'runner'), out[-1500:]
 
 def check_c20(root, pid, tier, seed, replay):
@@ -198,7 +198,7 @@ SPECIAL['C20'] = check_c20
 
 # ------------------------------------------------------------------------------------------------ C04
 def build_loomh(root):
-    hdir = os.path.join(root, 'harness', 'loomh')
+    hdir = lsv.harness_dir(root, 'loomh')
     lock_src = os.path.join(lsv.REPO, 'Cargo.lock')
     if os.path.exists(lock_src):
         import shutil
@@ -333,7 +333,7 @@ def check_c19(root, pid, tier, seed, replay):
     st = lsv.Build(root).run()
     lsv.base_obligations(root, pid, res, st)
     stats = lsv.new_stats()
-    hdir = os.path.join(root, 'harness', 'conv')
+    hdir = lsv.harness_dir(root, 'conv')
     import shutil
     if os.path.exists(os.path.join(lsv.REPO, 'Cargo.lock')):
         shutil.copy(os.path.join(lsv.REPO, 'Cargo.lock'), os.path.join(hdir, 'Cargo.lock'))
